@@ -27,7 +27,6 @@ var kinds = []string{"server", "udp", "tcp"}
 func ipN(i int) net.IP { return net.IPv4(10, 77, byte(i>>8), byte(i)).To4() }
 
 const replyWait = 400 * time.Millisecond
-const stopBudget = 3 * time.Second
 
 // ---- opcode routing, exhaustive -------------------------------------------------------------------------
 
